@@ -7,9 +7,12 @@
 package main
 
 import (
+	"bufio"
+	"bytes"
 	"context"
 	"encoding/json"
 	"fmt"
+	"io"
 	"math/rand"
 	"net/http/httptest"
 	"os"
@@ -68,6 +71,10 @@ type want struct {
 	class string
 }
 
+func (w want) MarshalJSON() ([]byte, error) {
+	return json.Marshal(map[string]string{"bytes": w.sink, "error": w.class})
+}
+
 var (
 	rec      = interp.NewRecorder()
 	shared   []templ.Component // Page(handle, items) per program: shared by all goroutines
@@ -117,6 +124,83 @@ func renderOnce(c templ.Component, p plan, slow bool) want {
 	return want{norm(string(fw.Buf)), cl}
 }
 
+// ---------------------------------------------------------------------------------------------
+// destinations: what a goroutine renders into (spec/RenderPool.tla, DestKinds)
+
+// dest is a goroutine's long-lived destination: its output, and in front of it its own bufio.Writer
+// (at least as big as / smaller than the pool buffers) or its own *runtime.Buffer. The caller flushes after Render.
+type dest struct {
+	kind  string // bufioBig bufioSmall buffer
+	out   bytes.Buffer
+	w     io.Writer
+	flush func() error
+}
+
+var destKinds = []string{"plain", "bufioBig", "bufioSmall", "buffer"}
+
+func newDest(kind string) *dest {
+	d := &dest{kind: kind}
+	switch kind {
+	case "bufioBig":
+		size := templruntime.DefaultBufferSize
+		if size < 4096 {
+			size = 4096
+		}
+		bw := bufio.NewWriterSize(&d.out, size)
+		d.w, d.flush = bw, bw.Flush
+	case "bufioSmall":
+		size := templruntime.DefaultBufferSize - 1
+		if size > 64 {
+			size = 64
+		}
+		bw := bufio.NewWriterSize(&d.out, size)
+		d.w, d.flush = bw, bw.Flush
+	case "buffer":
+		b := &templruntime.Buffer{}
+		b.Reset(&d.out)
+		rec.Own(b) // the caller's own buffer: not an object of the pool
+		d.w, d.flush = b, b.Flush
+	}
+	return d
+}
+
+// renderInto renders c into a goroutine's own destination, flushes it like the caller would, and returns what
+// arrived in that goroutine's output since the last render.
+func renderInto(d *dest, c templ.Component) want {
+	id := atomic.AddInt64(&renderID, 1)
+	rec.Begin(id)
+	err := c.Render(context.Background(), d.w)
+	if ferr := d.flush(); err == nil { // the caller flushes its writer whatever Render returned
+		err = ferr
+	}
+	cl := interp.Classify(err)
+	rec.End(cl)
+	got := d.out.String()
+	d.out.Reset()
+	return want{norm(got), cl}
+}
+
+type preStep struct {
+	kind string
+	who  string
+	prog int
+	got  want
+}
+
+// destPreamble renders, on this one goroutine and before anything else has used the pools, into two
+// destinations A and B of each kind in the order A, B, A, B (one fixed interleaving, independent of the scheduler).
+func destPreamble() []preStep {
+	var steps []preStep
+	for _, kind := range destKinds[1:] {
+		a, b := newDest(kind), newDest(kind)
+		for k, d := range []*dest{a, b, a, b} {
+			prog := k % len(programs)
+			steps = append(steps, preStep{kind, []string{"A", "B", "A", "B"}[k], prog, renderInto(d, bare[prog])})
+		}
+	}
+	return steps
+}
+
 func renderToGoHTML(c templ.Component) want {
 	id := atomic.AddInt64(&renderID, 1)
 	rec.Begin(id)
@@ -158,6 +242,17 @@ func run(j job, slow bool) want {
 	default:
 		return renderOnce(gallery[j.prog], plans[j.plan], slow)
 	}
+}
+
+// component is the shared component a job renders.
+func component(j job) templ.Component {
+	switch j.via {
+	case 1:
+		return bare[j.prog]
+	case 4:
+		return gallery[j.prog]
+	}
+	return shared[j.prog]
 }
 
 const galleryVariants = 8
@@ -278,6 +373,7 @@ func main() {
 		stopRewriter = startRewriter()
 	}
 	setup()
+	pre := destPreamble()
 	rec.On = false
 	ref := reference()
 	rec.Take()
@@ -303,6 +399,13 @@ func main() {
 		stopRewriter = restartRewriter(stopRewriter)
 	}
 
+	for _, st := range pre {
+		if w := ref[job{st.prog, 0, 1}]; st.got != w {
+			atomic.AddInt64(&mismatch, 1)
+			vhlib.Fail("OwnDestinationOnly", "rendering A, B, A, B on one goroutine into two destinations of the same kind: a render's output differs from the same render alone",
+				map[string]any{"destination_kind": st.kind, "destination": st.who, "program": st.prog, "alone": w, "got": st.got})
+		}
+	}
 	var wg sync.WaitGroup
 	start := time.Now()
 	deadline := start.Add(time.Duration(N) * time.Millisecond)
@@ -311,6 +414,11 @@ func main() {
 		go func(g int) {
 			defer wg.Done()
 			rng := rand.New(rand.NewSource(seed*1000 + int64(g)))
+			// every goroutine has a destination kind; all but "plain" are long-lived objects of that goroutine
+			var d *dest
+			if k := destKinds[g%len(destKinds)]; k != "plain" {
+				d = newDest(k)
+			}
 			for m := 0; ; m++ {
 				if dev {
 					if time.Now().After(deadline) {
@@ -335,7 +443,13 @@ func main() {
 					// neighbouring goroutines render different variants at the same time
 					j.via, j.prog = 4, (g+m)%galleryVariants
 				}
-				got := run(j, g%3 == 0)
+				var got want
+				if d != nil && j.via != 2 && j.via != 3 {
+					j.plan = 0 // the goroutine's own destination does not fail
+					got = renderInto(d, component(j))
+				} else {
+					got = run(j, g%3 == 0)
+				}
 				atomic.AddInt64(&renders, 1)
 				w := ref[j]
 				if got.class != "nil" && got.class != "200" {
@@ -344,7 +458,7 @@ func main() {
 				if got != w {
 					if atomic.AddInt64(&mismatch, 1) <= 4 {
 						vhlib.Fail("Isolated", "a concurrent render differs from the same render alone",
-							map[string]any{"goroutine": g, "render": m, "job": j.String(), "alone": w, "concurrent": got, "goroutines": G})
+							map[string]any{"goroutine": g, "render": m, "job": j.String(), "alone": w, "concurrent": got, "goroutines": G, "destination_kind": destKinds[g%len(destKinds)]})
 					}
 				}
 			}
